@@ -442,6 +442,53 @@ theorem azimuth_window_iff (here : Node ℝ) (other : P3 ℝ) (side : Option Boo
         ((legAt tR here other side).cart.x = 0 ∧ 0 ≤ (legAt tR here other side).cart.y)) :=
   arg_window_iff _ _
 
+/-! ### The angles do not depend on the unit of length
+
+The same inspection drawn at another scale (every point multiplied by `s > 0`, frames unchanged): leg lengths are multiplied
+by `s`; the unsigned, signed and conventional angles and the azimuth are unchanged (the check's scale-invariance oracle). -/
+
+def scaleP (s : ℝ) (v : P3 ℝ) : P3 ℝ := ⟨s * v.x, s * v.y, s * v.z⟩
+
+theorem fromGcs_scale (s : ℝ) (o p : P3 ℝ) (b : M3 ℝ) :
+    fromGcs (scaleP s o) b (scaleP s p) = scaleP s (fromGcs o b p) := by
+  simp only [fromGcs, mulVec, vsub, dot, scaleP, P3.mk.injEq]
+  refine ⟨by ring, by ring, by ring⟩
+
+theorem norm2_scale (s : ℝ) (hs : 0 ≤ s) (v : P3 ℝ) : norm2 tR (scaleP s v) = s * norm2 tR v := by
+  simp only [norm2, tR, scaleP]
+  have : s * v.x * (s * v.x) + s * v.y * (s * v.y) + s * v.z * (s * v.z) = (s * s) * (v.x * v.x + v.y * v.y + v.z * v.z) := by ring
+  rw [this, Real.sqrt_mul (mul_self_nonneg s), Real.sqrt_mul_self hs]
+
+theorem legAt_scale (s : ℝ) (hs : 0 < s) (here : Node ℝ) (other : P3 ℝ) (side : Option Bool) :
+    (legAt tR { here with p := scaleP s here.p } (scaleP s other) side).polar = (legAt tR here other side).polar ∧
+    (legAt tR { here with p := scaleP s here.p } (scaleP s other) side).azimuth = (legAt tR here other side).azimuth ∧
+    (legAt tR { here with p := scaleP s here.p } (scaleP s other) side).signed = (legAt tR here other side).signed ∧
+    (legAt tR { here with p := scaleP s here.p } (scaleP s other) side).conventional = (legAt tR here other side).conventional ∧
+    (legAt tR { here with p := scaleP s here.p } (scaleP s other) side).size = s * (legAt tR here other side).size := by
+  have hpol : (legAt tR { here with p := scaleP s here.p } (scaleP s other) side).polar = (legAt tR here other side).polar := by
+    simp only [legAt, fromGcs_scale, norm2_scale s hs.le]
+    show Real.arccos (s * _ / (s * _)) = Real.arccos _
+    rw [mul_div_mul_left _ _ hs.ne']
+  have haz : (legAt tR { here with p := scaleP s here.p } (scaleP s other) side).azimuth = (legAt tR here other side).azimuth := by
+    simp only [legAt, fromGcs_scale]
+    show Complex.arg ⟨s * _, s * _⟩ = Complex.arg ⟨_, _⟩
+    have : (⟨s * (fromGcs other here.frame here.p).x, s * (fromGcs other here.frame here.p).y⟩ : ℂ)
+        = (s : ℂ) * ⟨(fromGcs other here.frame here.p).x, (fromGcs other here.frame here.p).y⟩ := by
+      apply Complex.ext <;> simp
+    rw [this, Complex.arg_real_mul _ hs]
+  refine ⟨hpol, haz, ?_, ?_, ?_⟩
+  · rw [legAt_signed, legAt_signed, hpol, haz]
+  · have h1 : (legAt tR { here with p := scaleP s here.p } (scaleP s other) side).conventional
+        = side.map (fun b => if b then (legAt tR { here with p := scaleP s here.p } (scaleP s other) side).polar
+                              else tR.pi - (legAt tR { here with p := scaleP s here.p } (scaleP s other) side).polar) := rfl
+    have h2 : (legAt tR here other side).conventional
+        = side.map (fun b => if b then (legAt tR here other side).polar else tR.pi - (legAt tR here other side).polar) := rfl
+    rw [h1, h2, hpol]
+  · have : vsub (scaleP s other) (scaleP s here.p) = scaleP s (vsub other here.p) := by
+      simp only [vsub, scaleP, P3.mk.injEq]; refine ⟨by ring, by ring, by ring⟩
+    show norm2 tR (vsub (scaleP s other) (scaleP s here.p)) = s * norm2 tR (vsub other here.p)
+    rw [this, norm2_scale s hs.le]
+
 end real
 
 /-! ## non-vacuity -/
